@@ -85,7 +85,7 @@ def match_schemas(w_schema, r_schema, named_schemas):
         # as the writer
         for schema in r_schema:
             if match_types(w_schema, schema, named_schemas):
-                return schema
+                return match_schemas(w_schema, schema, named_schemas)
         else:
             raise SchemaResolutionError(error_msg)
     else:
